@@ -383,6 +383,10 @@ class HandshakeOpenFlowHandlers (OpenFlowHandlers):
     con.ofnexus.raiseEventNoErrors(ConnectionHandshakeComplete, con)
 
     e = con.ofnexus.raiseEventNoErrors(ConnectionUp, con, con.features)
+    if con.disconnected:
+      # A ConnectionUp handler dropped the connection (or a send it made
+      # failed): don't carry on announcing a dead connection
+      return
     if e is None or e.halt != True:
       con.raiseEventNoErrors(ConnectionUp, con, con.features)
 
